@@ -18,7 +18,7 @@ def parseCur (s : String) : Option (List (Nat × Option Nat)) :=
     | [k, v] => do let k ← k.toNat?; let v ← v.toNat?; pure (k, some v)
     | _ => none)
 
-/-- "NAME:id=val,NAME:id=none" in `config.items()` order -/
+/-- "NAME:id=val,NAME:id=none" in `config.items()` order; a leading `~` marks an item the schema filled in -/
 def parseOv (s : String) : Option Overrides :=
   if s = "-" then some [] else
   allSome ((s.splitOn ",").map fun kv =>
@@ -37,7 +37,9 @@ def handle : List String → String
     match v.toNat?, parseCur cur, parseOv ov with
     | some v, some cur, some ov =>
       let ncp : Ncp := ⟨fun i => (cur.lookup i).join, fun _ => true, fun _ => true⟩
-      match writeConfig v ncp ov with
+      let injected := (ov.filter fun o => o.1.startsWith "~").map fun o => (o.1.drop 1).toString
+      let ov : Overrides := ov.map fun o => (if o.1.startsWith "~" then (o.1.drop 1).toString else o.1, o.2)
+      match writeConfig v ncp (fun n => !injected.contains n) ov with
       | .ok ops => " ".intercalate (ops.map opStr)
       | .error (.noDefaults v) => s!"ERR KeyError {v}"
     | _, _, _ => "bad-op"
